@@ -388,3 +388,90 @@ def enclosing_tests(parents, node, stop=None):
             break
         cur = p
     return out
+
+
+def name_deps(fn: ast.AST, seeds: Dict[str, Set[str]], source_of=None) -> Dict[str, Set[str]]:
+    """Flow-insensitive dependence closure over the local names of `fn`.
+
+    dep[x] = set of seed labels x may depend on.  Handles assignment (names, tuples, starred), augmented and annotated
+    assignment, walrus, for-targets (from the iterable), with-as, comprehension variables, and mutation through a
+    method call or a subscript/attribute store on a local (`x.append(e)`, `x[i] = e`, `x.f = e` make x depend on e).
+    `source_of(node)` may return extra labels for an expression node (e.g. a particular call).
+    """
+    dep: Dict[str, Set[str]] = {k: set(v) for k, v in seeds.items()}
+
+    def labels(e) -> Set[str]:
+        out: Set[str] = set()
+        for x in ast.walk(e):
+            if isinstance(x, ast.Name) and x.id in dep:
+                out |= dep[x.id]
+            if source_of is not None:
+                extra = source_of(x)
+                if extra:
+                    out |= set(extra)
+        return out
+
+    def bind(target, labs) -> bool:
+        ch = False
+        for t in ast.walk(target):
+            if isinstance(t, ast.Name):
+                cur = dep.setdefault(t.id, set())
+                if not labs <= cur:
+                    cur |= labs
+                    ch = True
+        return ch
+
+    def base_name(t):
+        while isinstance(t, (ast.Subscript, ast.Attribute)):
+            t = t.value
+        return t if isinstance(t, ast.Name) else None
+    changed = True
+    rounds = 0
+    while changed and rounds < 20:
+        changed = False
+        rounds += 1
+        for n in ast.walk(fn):
+            if isinstance(n, ast.Assign):
+                labs = labels(n.value)
+                for t in n.targets:
+                    if isinstance(t, (ast.Subscript, ast.Attribute)):
+                        b = base_name(t)
+                        if b is not None and b.id != 'self' and labs:
+                            changed |= bind(b, labs | labels(t))
+                    else:
+                        if labs:
+                            changed |= bind(t, labs)
+            elif isinstance(n, ast.AugAssign):
+                labs = labels(n.value)
+                b = base_name(n.target) if not isinstance(n.target, ast.Name) else n.target
+                if b is not None and labs and b.id != 'self':
+                    changed |= bind(b, labs)
+            elif isinstance(n, ast.AnnAssign) and n.value is not None:
+                labs = labels(n.value)
+                if labs:
+                    changed |= bind(n.target, labs)
+            elif isinstance(n, ast.NamedExpr):
+                labs = labels(n.value)
+                if labs:
+                    changed |= bind(n.target, labs)
+            elif isinstance(n, (ast.For, ast.AsyncFor)):
+                labs = labels(n.iter)
+                if labs:
+                    changed |= bind(n.target, labs)
+            elif isinstance(n, ast.comprehension):
+                labs = labels(n.iter)
+                if labs:
+                    changed |= bind(n.target, labs)
+            elif isinstance(n, ast.withitem) and n.optional_vars is not None:
+                labs = labels(n.context_expr)
+                if labs:
+                    changed |= bind(n.optional_vars, labs)
+            elif isinstance(n, ast.Call) and isinstance(n.func, ast.Attribute):
+                b = base_name(n.func.value)
+                if b is not None and b.id != 'self' and n.func.attr in ('append', 'extend', 'add', 'update', 'insert', 'setdefault', '__setitem__', 'appendleft'):
+                    labs = set()
+                    for a in list(n.args) + [k.value for k in n.keywords]:
+                        labs |= labels(a)
+                    if labs:
+                        changed |= bind(b, labs)
+    return dep
